@@ -26,6 +26,9 @@ LOOP_TABLE = {
 }
 
 
+NODE_LOOKUPS = {'get_node', '_get_node', 'get_child', 'evaluate_node', 'get_first_not_missing_node'}
+
+
 def reachable_from_evaluate(repo):
     seeds = [repo.func('EvalContext.evaluate'), repo.func('EvalContext.evaluate_node'), repo.func('EvalContext.get_node'),
              repo.func('EvalContext.PartialChild.__getitem__'), repo.func('GlobalsWrapper.__getattr__')]
@@ -125,6 +128,52 @@ def classify(loop):
     return None, None
 
 
+def counter_advances(repo, fi, loop):
+    """`while i < bound`: interprets the function (helpers inlined) and looks at the value of the counter at the end of every
+    iteration path that goes round again: it must be the value at loop entry plus a positive constant (sums of positive
+    integer constants, possibly added inside inner loops) - a strictly increasing counter against a bound the loop leaves alone"""
+    from ..tracer import Tracer
+    test = loop.test
+    if not (isinstance(test, ast.Compare) and len(test.ops) == 1 and isinstance(test.ops[0], (ast.Lt, ast.LtE)) and isinstance(test.left, ast.Name)):
+        return None
+    i = test.left.id
+    bound_names = {n.id for n in ast.walk(test.comparators[0]) if isinstance(n, ast.Name)}
+    for st in ast.walk(loop):
+        if isinstance(st, (ast.Assign, ast.AugAssign, ast.AnnAssign)):
+            tg = st.targets if isinstance(st, ast.Assign) else [st.target]
+            if any(isinstance(t, ast.Name) and t.id in bound_names for t in tg):
+                return None      # the bound moves
+    ends = []
+    t = Tracer(repo, follow_exceptions=False, mark_carried=True)
+    t.iter_hook = lambda st, path: ends.append(path.env.get(i)) if st is loop else None
+    try:
+        t.trace(fi)
+    except AnalysisError:
+        return None
+
+    def advance(e):
+        """(number of positive constants added, ok)"""
+        if isinstance(e, ast.BinOp) and isinstance(e.op, ast.Add):
+            for a, b in ((e.left, e.right), (e.right, e.left)):
+                if isinstance(b, ast.Constant) and isinstance(b.value, int) and not isinstance(b.value, bool) and b.value > 0:
+                    n, ok = advance(a)
+                    return n + 1, ok
+            return 0, False
+        if isinstance(e, ast.Call) and isinstance(e.func, ast.Name) and e.func.id == 'carried' and len(e.args) == 1:
+            n, ok = advance(e.args[0])
+            return n, True if not ok and n == 0 else ok      # the value at loop entry, whatever it is
+        return 0, False
+    if not ends:
+        return None
+    for v in ends:
+        if v is None:
+            return None
+        n, ok = advance(v.ast)
+        if not ok or n < 1:
+            return None
+    return 'bounded-counter', 'counter %s is its value at the start of the iteration plus a positive constant on all %d interpreted iteration paths (helpers inlined); the bound is not assigned in the loop' % (i, len(ends))
+
+
 def cycle_guard(loop):
     """membership test of the current element against a collection that grows in the body and leads to raise"""
     grows = set()
@@ -149,6 +198,10 @@ def r1(repo, run):
             if not isinstance(loop, ast.While):
                 continue
             kind, why = classify(loop)
+            if kind not in ('bounded-counter', 'shrinking-worklist') and fi.outer is None:
+                adv = counter_advances(repo, fi, loop)
+                if adv is not None:
+                    kind, why = adv
             where = (fi.file, loop.lineno, fi.qualname)
             desc = 'while %s' % norm(loop.test)[:80]
             if kind in ('bounded-counter', 'shrinking-worklist'):
@@ -162,6 +215,10 @@ def r1(repo, run):
                 ok, how = cycle_guard(loop)
                 if ok:
                     run.ok('C09.R1', where, desc, 'reference chasing with cycle guard: ' + how)
+                elif not any(isinstance(c.func, ast.Attribute) and c.func.attr in NODE_LOOKUPS for c in calls_in(loop)):
+                    # a loop that re-assigns its variable from some call, but not from a lookup in the config tree: nothing says it
+                    # follows references, and nothing bounds it either
+                    raise AnalysisError('C09.R1: loop `%s` in %s cannot be classified (variable reassigned from %s) and is not in the table' % (desc, fi.qualname, why))
                 else:
                     run.violation('C09.R1', fi, desc, 'reference-chasing loop (%s) without a cycle guard: %s. A reference cycle (also one that the start node is not part of) never terminates' % (why, how), node=loop)
             else:
